@@ -144,7 +144,11 @@ def safely_unquote_auth_item(string):
         string, only_printable=True, normalize_space=True, unsafe=UNSAFE_FOR_AUTH_ITEM
     )
 
-    return NON_ASCII_CHAR_RE.sub(_quote_netloc_unsafe_match, string)
+    string = NON_ASCII_CHAR_RE.sub(_quote_netloc_unsafe_match, string)
+
+    # NOTE: a raw "@" (e.g. an email used as username) and its escaped form
+    # must end up the same, and the escaped form is the one kept quoted
+    return string.replace("@", "%40")
 
 
 safely_unquote_path = partial(
